@@ -423,12 +423,77 @@ func (r *Relayer) getDestination(f *lazyCallReq, call RelayCall) (*Connection, b
 	return remoteConn, true, nil
 }
 
+// relayCallOnce serialises the RelayHost callbacks of one relayed call and
+// drops whatever is reported after End. The frames of a call are processed on
+// several goroutines (the read loops of both connections and the timeout
+// timers): a non-final frame may still be in flight through handleNonCallReq or
+// Receive when the call is ended elsewhere - by its timeout, by a failure on
+// the other connection, or by the final frame of the other direction.
+type relayCallOnce struct {
+	RelayCall
+
+	mu    sync.Mutex
+	ended bool
+}
+
+func (c *relayCallOnce) SentBytes(n uint16) {
+	c.mu.Lock()
+	if !c.ended {
+		c.RelayCall.SentBytes(n)
+	}
+	c.mu.Unlock()
+}
+
+func (c *relayCallOnce) ReceivedBytes(n uint16) {
+	c.mu.Lock()
+	if !c.ended {
+		c.RelayCall.ReceivedBytes(n)
+	}
+	c.mu.Unlock()
+}
+
+func (c *relayCallOnce) CallResponse(f relay.RespFrame) {
+	c.mu.Lock()
+	if !c.ended {
+		c.RelayCall.CallResponse(f)
+	}
+	c.mu.Unlock()
+}
+
+func (c *relayCallOnce) Succeeded() {
+	c.mu.Lock()
+	if !c.ended {
+		c.RelayCall.Succeeded()
+	}
+	c.mu.Unlock()
+}
+
+func (c *relayCallOnce) Failed(reason string) {
+	c.mu.Lock()
+	if !c.ended {
+		c.RelayCall.Failed(reason)
+	}
+	c.mu.Unlock()
+}
+
+func (c *relayCallOnce) End() {
+	c.mu.Lock()
+	if !c.ended {
+		c.ended = true
+		c.RelayCall.End()
+	}
+	c.mu.Unlock()
+}
+
 func (r *Relayer) handleCallReq(f *lazyCallReq) (shouldRelease bool, _ error) {
 	if handled := r.handleLocalCallReq(f); handled {
 		return _relayNoRelease, nil
 	}
 
 	call, err := r.relayHost.Start(f, r.relayConn)
+	if call != nil {
+		call = &relayCallOnce{RelayCall: call}
+	}
 	if err != nil {
 		// If we have a RateLimitDropError we record the statistic, but
 		// we *don't* send an error frame back to the client.
